@@ -12,7 +12,6 @@ CLAIMED = {
 NA = {
  "C03": "Day / week addition is exact only if the month-by-month, year-by-year and week carries (__ymd_fixup_d, __yd_fixup_d, __ywd_fixup_w, __ymcw_fixup_c) land on the right calendar day: loops whose trip count and step depend on table lookups (days per month, weeks per year, weekday of the 1st) indexed by the running value. Neither the interval / difference-bound domain nor the linear and polynomial summaries built here can express `the day count of the result equals the day count of the input plus n` across such a loop, and no clause of the property is visible in the shape of the code alone (the dispatch is already covered under C01/C04). A bounded model check or exhaustive run would decide it, but that is a different technique family.",
  "C05": "Inverse-of-addition quantifies over pairs of computed values: __ymd_diff / __yd_diff borrow from month and year lengths looked up per operand (the February double borrow, the leap-day matrix) and the property relates their result to what dt_dadd computes from it. The only structural clauses -- choice of duration type from the format, 64-bit day*seconds products, sign handling of the printed duration -- are decided under C06; the arithmetic agreement of two independent multi-step routines over all pairs is out of reach of dataflow, typestate or table rules.",
- "C07": "Business-day arithmetic is a family of closed forms over (weekday, count) with truncating division and sign cases (__get_d_equiv, __get_b_equiv, __get_nwedays, __get_bdays). Their correctness is a value-level fact for every (weekday, n); deciding it means evaluating the routines over their domain, i.e. running them, which this family excludes. (A concrete counterexample is known and recorded in DESIGN.md: dadd 1988-07-13 -290b prints a Saturday; no static rule here can be made to see it without executing the closed form.)",
  "C16": "Nearest-target rounding and idempotence compare the result with every other candidate date/time ('nearest on the requested side') and with a second application of the same routine; dround's routines compute the result through calendar conversions and modular arithmetic on run-time values. No clause of it is a pairing, ordering, ownership or table-agreement fact; the one memory-safety style observation (unchecked `% sdur` divisor) is reported as a note under C10's divisor rule.",
 }
 CLAIMED["C02"] = dict(
@@ -117,6 +116,13 @@ CLAIMED["C15"] = dict(
    note="That the values printed are exactly FIRST + k*INC between the bounds, without duplicates, is NOT decided: it quantifies over an unbounded iteration of computed dates. Relies on the adders (C04, C11) and the order (C08).",
    technique="static analysis: CFG dominance / reachability, union typestate via guards, loop-scoped accumulation rule, mirror agreement of guarded return expressions, table agreement",
    ref="DESIGN.md §4 C15")
+
+
+CLAIMED["C07"] = dict(
+   text="Decides three structural necessary conditions of the business-day closed forms in lib/bizda.c, and nothing more: (1) every remainder that is used as a residue (a weekday offset that is compared or subtracted as such) is taken from an operand that is non-negative in the integers, i.e. before any wrap into an unsigned type (interval analysis of the operand's summands; remainders that stay paired with their quotient or are reduced again inside a biased sum are exempt) -- the rule that exposed and now guards the repaired defect `dadd 1988-07-13 -290b` = Saturday; (2) the switch over weekday + remainder in __get_b_equiv has a case for every value its operand can take (operand interval under the contract weekday in 1..7, default edge dead when all values are labelled); (3) both directions use the same week (5 business days per 7 days and back).",
+   note="That the closed forms count Monday-Friday days exactly for every (weekday, count), the month tables of business days and the bizda <-> ymd conversions are NOT decided: they are value-level facts. This is a thin claim and says so.",
+   technique="static analysis: interval abstract interpretation of % operands in the integers, switch coverage against the operand interval, sibling constant agreement",
+   ref="DESIGN.md §4 C07")
 
 
 def main():
